@@ -320,6 +320,9 @@ def binop(op, a, b):
             return res if op == "in" else un("not", res)
         return T("op", op, a, b, ty="bool")
     if op in ("is", "isnot"):
+        if a.k == "obj" and b.k == "obj":
+            # two object terms: the same object exactly when they carry the same id
+            return C((a.a[0] == b.a[0]) == (op == "is"))
         # identity with None
         for p, q in ((a, b), (b, a)):
             if is_const(q, None):
